@@ -4,6 +4,5 @@ INIT Init
 NEXT Next
 INVARIANT ImplRefinesMeaning
 INVARIANT OracleSane
-INVARIANT EvalLemma
 INVARIANT Emit
 CHECK_DEADLOCK FALSE
